@@ -124,6 +124,10 @@ def classify(issue, out):
         return "dictionary-values-unvalidated"
     if key in ("object-ref-dangling", "object-ref-type") and len([x for x in path.split(".") if not x.startswith("[")]) > 3:
         return "object-ref-nested-unchecked"
+    if last.startswith("extension-definition--") and key in ("wrong-json-kind", "empty-dictionary", "null-value", "null"):
+        return "unregistered-extension-value-unchecked"
+    if key == "reference-type-disallowed" and isinstance(v, str) and v.startswith("extension-definition--"):
+        return "extension-definition-counted-as-sdo"
     if key == "empty-dictionary" and last == "extensions":
         return "empty-extensions-dictionary"
     if key in ("empty-dictionary",) and path:
